@@ -32,6 +32,9 @@ type GOut struct {
 	Note string   `json:"note"`
 }
 
+// placeholders of XPathGrammarGen's character alphabet
+var charSubst = strings.NewReplacer("~", "\u00e9", "`", "\xff", "^", "\x0b", "{", "\x00", "}", "\u00a0")
+
 func isWord(c byte) bool {
 	return c == '_' || c == '-' || c == '.' || c == ':' || (c >= '0' && c <= '9') || (c >= 'a' && c <= 'z') || (c >= 'A' && c <= 'Z')
 }
@@ -65,7 +68,7 @@ func joinMin(ts []string) string {
 
 func joinWs(ts []string) string {
 	var b strings.Builder
-	seps := []string{" ", "\t", "\n ", "  "}
+	seps := []string{" ", "\t", "\n ", "  ", " \n", "\r\n", "\t\r\n "}
 	b.WriteString(" ")
 	for i, t := range ts {
 		if i > 0 {
@@ -138,7 +141,7 @@ func gram(args []string) {
 			n++
 			t1, t2 := joinMin(v.Ts), joinWs(v.Ts)
 			if v.Kind == "chars" { // a raw character string: ~ is a non-ASCII name character, \f an invalid byte
-				t1 = strings.NewReplacer("~", "\u00e9", "\f", "\xff").Replace(v.Ts[0])
+				t1 = charSubst.Replace(v.Ts[0])
 				t2 = t1
 			}
 			g1, g2 := verdictOf(v.Lang, t1), verdictOf(v.Lang, t2)
